@@ -424,11 +424,12 @@ func (app *App) stateManager() appState {
 	if err != nil && !errors.Is(err, dcs.ErrNotFound) {
 		app.logger.Error().Err(err).Msg("failed to get maintenance from zk")
 
-		// If maintenance file doesn't exist we were in light maintenance mode
-		// and can proceed in state Manager
+		// We do not know whether maintenance (full or light) is on: do nothing in this
+		// iteration. With the marker file we were paused before: stay paused.
 		if app.doesMaintenanceFileExist() {
 			return stateMaintenance
 		}
+		return stateManager
 	}
 
 	lightMaintenance := maintenance != nil && maintenance.IsLightMode()
